@@ -144,12 +144,12 @@ def instances_of_form(form, inst_id, mode):
             seen.add(tail)
             res.append((tail, kind + ("+impl" if wi else "")))
             # decorated variants the form allows
-            if form.get("kmask") and t and t[0].startswith("r:"):
+            if form.get("kmask") and t:
                 kt = "%d %x r:16:2 %s" % (inst_id, 0, " ".join(t))
                 if kt not in seen:
                     seen.add(kt)
                     res.append((kt, kind + "+k"))
-                if form.get("zmask"):
+                if form.get("zmask") and t[0].startswith("r:"):
                     zt = "%d %x r:16:2 %s" % (inst_id, 0x800000, " ".join(t))
                     if zt not in seen:
                         seen.add(zt)
